@@ -9,5 +9,11 @@ AliasMix == [f2 |-> "i2"]
 IntValMix == [i1 |-> 1, i2 |-> 2]
 KeysAll == {"i0", "i1", "i2", "i3", "i4", "ib", "f25", "sa", "sb", "sl", "bt", "tk", "fk"}
 AliasAll == [f2 |-> "i2", fm0 |-> "i0", fb |-> "ib", f3 |-> "i3"]
+(* a family with many integer keys, to drive the array part through growth, shrinking and migration *)
+KeysBig == {"n" \o ToString(i) : i \in 1..40} \cup {"i0", "ib", "f25", "sa", "tk"}
+AliasBig == [f2 |-> "n2", fm0 |-> "i0", fb |-> "ib", f3 |-> "n3"]
+IntValBig == [k \in {"n" \o ToString(i) : i \in 1..40} \cup {"i0", "ib"} |->
+                IF k = "i0" THEN 0 ELSE IF k = "ib" THEN 1073741824
+                ELSE CHOOSE i \in 1..40 : k = "n" \o ToString(i)]
 AllTravs == {"plain", "update", "clear", "clearothers", "updateothers"}
 =============================================================================
